@@ -133,4 +133,140 @@ def CPage.subtract := CPage.process elemSubtract
 /-- `|a, b| BitPage::subtract(b, a)` (the closure of `BitSet::reversed_subtract`) -/
 def CPage.revSubtract (a b : CPage) : CPage := CPage.subtract b a
 
+/-! ## the element iterator `struct Iter` and `BitPage::iter` / `iter_after`
+
+`Iter { val: Element, forward_index: i32, backward_index: i32 }`: the two indices are `i32`s because
+`backward_index` becomes `-1` after bit 0 was yielded from the back; they are modelled as `Int`. -/
+
+/-- `struct Iter` -/
+structure EIter where
+  val : Nat
+  fwd : Int
+  bwd : Int
+deriving Repr, DecidableEq, Inhabited
+
+/-- `Iter::new(elem)`: `forward_index: 0, backward_index: ELEM_BITS as i32 - 1` -/
+def EIter.new (elem : Nat) : EIter := ⟨elem, 0, 63⟩
+
+/-- `Iter::from(elem, index)`: `forward_index: index as i32` (`index ≤ 64` at the only call site) -/
+def EIter.from (elem : Nat) (index : Nat) : EIter := ⟨elem, index, 63⟩
+
+/-- `u64::trailing_zeros` (64 for zero) -/
+def ctz64 (x : Nat) : Nat := ((List.range 64).find? (fun i => x.testBit i)).getD 64
+
+/-- highest set bit below `n`, searching downwards -/
+def highBit? (x : Nat) : Nat → Option Nat
+  | 0 => none
+  | n + 1 => if x.testBit n then some n else highBit? x n
+
+/-- `u64::leading_zeros` (64 for zero) -/
+def clz64 (x : Nat) : Nat :=
+  match highBit? x 64 with
+  | some i => 63 - i
+  | none => 64
+
+/-- `<Iter as Iterator>::next`:
+```
+if self.forward_index > self.backward_index { return None; }
+let mask = (1u64 << self.forward_index) - 1;
+let masked = self.val & !mask;
+let next_index = masked.trailing_zeros() as i32;
+if next_index > self.backward_index { return None; }
+self.forward_index = next_index + 1;
+Some(next_index as u32)
+``` -/
+def EIter.next (it : EIter) : Option Nat × EIter :=
+  if it.fwd > it.bwd then (none, it)
+  else
+    let mask := shl64 1 it.fwd.toNat - 1
+    let masked := it.val &&& not64 mask
+    let nextIndex : Int := (ctz64 masked : Nat)
+    if nextIndex > it.bwd then (none, it)
+    else (some nextIndex.toNat, { it with fwd := nextIndex + 1 })
+
+/-- `<Iter as DoubleEndedIterator>::next_back`:
+```
+if self.backward_index < self.forward_index { return None; }
+let mask = 1u64.checked_shl(self.backward_index as u32 + 1).map(|v| v - 1).unwrap_or(Element::MAX);
+let masked = self.val & mask;
+let next_index = (ELEM_BITS as i32) - (masked.leading_zeros() as i32) - 1;
+if next_index < self.forward_index { return None; }
+self.backward_index = next_index - 1;
+Some(next_index as u32)
+```
+(`checked_shl(n)` is `None` exactly when `n ≥ 64`) -/
+def EIter.nextBack (it : EIter) : Option Nat × EIter :=
+  if it.bwd < it.fwd then (none, it)
+  else
+    let sh := it.bwd.toNat + 1
+    let mask := if sh < 64 then 1 <<< sh - 1 else U64_MAX
+    let masked := it.val &&& mask
+    let nextIndex : Int := 64 - (clz64 masked : Nat) - 1
+    if nextIndex < it.fwd then (none, it)
+    else (some nextIndex.toNat, { it with bwd := nextIndex - 1 })
+
+/-- call `next` until it returns `None` (at most `fuel` times; 65 calls always suffice) -/
+def EIter.drain : Nat → EIter → List Nat
+  | 0, _ => []
+  | n + 1, it =>
+    match it.next with
+    | (some v, it') => v :: EIter.drain n it'
+    | (none, _) => []
+
+/-- call `next_back` until it returns `None` -/
+def EIter.drainBack : Nat → EIter → List Nat
+  | 0, _ => []
+  | n + 1, it =>
+    match it.nextBack with
+    | (some v, it') => v :: EIter.drainBack n it'
+    | (none, _) => []
+
+/-- `iter.collect()` -/
+def EIter.toList (it : EIter) : List Nat := it.drain 65
+/-- `iter.rev().collect()` -/
+def EIter.toListRev (it : EIter) : List Nat := it.drainBack 65
+
+/-- an arbitrary interleaving of `next` (`true`) and `next_back` (`false`) calls:
+(values yielded at the front in call order, values yielded at the back in call order, final state) -/
+def EIter.runSched : EIter → List Bool → List Nat × List Nat × EIter
+  | it, [] => ([], [], it)
+  | it, true :: s =>
+    match it.next with
+    | (some v, it') => let r := EIter.runSched it' s; (v :: r.1, r.2.1, r.2.2)
+    | (none, it') => EIter.runSched it' s
+  | it, false :: s =>
+    match it.nextBack with
+    | (some v, it') => let r := EIter.runSched it' s; (r.1, v :: r.2.1, r.2.2)
+    | (none, it') => EIter.runSched it' s
+
+/-- `BitPage::iter().collect()`:
+`storage.iter().enumerate().filter(|(_, elem)| **elem != 0).flat_map(|(i, elem)| Iter::new(*elem).map(move |idx| i * 64 + idx))` -/
+def CPage.iterM (p : CPage) : List Nat :=
+  (p.elems.zipIdx.filter (fun ei => ei.1 != 0)).flatMap
+    (fun ei => (EIter.new ei.1).toList.map (fun idx => ei.2 * 64 + idx))
+
+/-- `BitPage::iter().rev().collect()`: `FlatMap::next_back` walks the filtered elements from the
+last one and each element iterator from its back -/
+def CPage.iterRevM (p : CPage) : List Nat :=
+  (p.elems.zipIdx.filter (fun ei => ei.1 != 0)).reverse.flatMap
+    (fun ei => (EIter.new ei.1).toListRev.map (fun idx => ei.2 * 64 + idx))
+
+/-- the element iterator chosen by the closure of `iter_after` for the `i`-th element of
+`storage[start_index..]` -/
+def iterAfterElem (value start : Nat) (ei : Nat × Nat) : EIter :=
+  let i := ei.2 + start
+  if start == i then EIter.from ei.1 (value % 64 + 1) else EIter.new ei.1
+
+/-- `BitPage::iter_after(value).collect()` -/
+def CPage.iterAfterM (p : CPage) (value : Nat) : List Nat :=
+  let start := elementIndex value
+  ((p.elems.drop start).zipIdx.filter (fun ei => ei.1 != 0)).flatMap
+    (fun ei => (iterAfterElem value start ei).toList.map (fun idx => (ei.2 + start) * 64 + idx))
+
+/-- `BitPage::iter_after(value).rev().collect()` -/
+def CPage.iterAfterRevM (p : CPage) (value : Nat) : List Nat :=
+  let start := elementIndex value
+  ((p.elems.drop start).zipIdx.filter (fun ei => ei.1 != 0)).reverse.flatMap
+    (fun ei => (iterAfterElem value start ei).toListRev.map (fun idx => (ei.2 + start) * 64 + idx))
+
 end FontVerif.IntSet
